@@ -989,8 +989,21 @@ class WebSocketProtocol13(WebSocketProtocol):
     ) -> list[tuple[str, dict[str, str]]]:
         extensions = headers.get("Sec-WebSocket-Extensions", "")
         if extensions:
-            return [httputil._parse_header(e.strip()) for e in extensions.split(",")]
+            return [self._parse_extension(e.strip()) for e in extensions.split(",")]
         return []
+
+    @staticmethod
+    def _parse_extension(extension: str) -> tuple[str, dict[str, Any]]:
+        name, params = httputil._parse_header(extension)
+        # _parse_header only reports "name=value" parameters; extension
+        # parameters such as "client_no_context_takeover" have no value
+        # and are reported with the value None.
+        parts = httputil._parseparam(";" + extension)
+        next(parts)
+        for p in parts:
+            if p and "=" not in p:
+                params.setdefault(p.lower(), None)
+        return name, params
 
     def _process_server_headers(
         self, key: str | bytes, headers: httputil.HTTPHeaders
